@@ -78,6 +78,8 @@ fn run<const N: usize>() {
     // the stamps of the universe (for C08's 'still refused' probes)
     // C08 runs: only the purge facts are judged, the merge / difference laws are C03's and C05's business
     let no_laws = vcommon::arg("--no-laws").is_some();
+    // merging only: the laws of the difference and its application (C05) are not evaluated
+    let merge_laws_only = vcommon::arg("--merge-laws-only").is_some();
     let times = arg_list_u64("--times", "");
     let nodes = arg_list_u64("--nodes", "");
     let universe: Vec<HLCTimestamp> = times.iter().flat_map(|t| nodes.iter().map(move |n| (*t, *n)))
@@ -280,7 +282,7 @@ fn run<const N: usize>() {
         }
         for i in 0..n {
             for j in 0..n {
-                if i == j {
+                if i == j || merge_laws_only {
                     continue;
                 }
                 let d = post[i].diff(&post[j]);
